@@ -531,6 +531,9 @@ def _dedup(vs):
 
 
 # ------------------------------------------------------------------ interpreter
+STATS = {"states": 0, "transitions": 0, "runs": 0}
+
+
 class Outcome:
     def __init__(self, kind, value, env, ref, tainted, word, node=None):
         self.kind = kind      # 'return' | 'fall' | 'raise'
@@ -565,6 +568,7 @@ class Interp:
     # state = (env(dict), ref, tainted, word)
     def run(self, body, env, ref=None):
         outs = []
+        STATS["runs"] += 1
         for env2, ref2, taint, word, oc in self.block(body, dict(env), ref, False, ()):
             if oc[0] == "return":
                 outs.append(Outcome("return", oc[1], env2, ref2, taint, word, oc[2]))
@@ -710,6 +714,7 @@ class Interp:
         while todo:
             e0, r0, t0, w0 = todo.pop(0)
             self.states += 1
+            STATS["states"] += 1
             if self.states > self.max_states:
                 raise Unsupported("state space of loop at line %d exceeds %d" % (node.lineno, self.max_states))
             # the sequence may end here
@@ -718,6 +723,7 @@ class Interp:
                 e1, r1 = self.client.bind(node, letter, dict(e0), r0)
                 for e2, r2, t2, w2, oc in self.block(node.body, e1, r1, t0, w0 + (letter,)):
                     self.transitions += 1
+                    STATS["transitions"] += 1
                     if oc[0] in ("next", "continue"):
                         k = key(e2, r2, t2)
                         if k not in seen:
